@@ -205,6 +205,10 @@ def vstep (max : Nat) (s : VSt) (count : Option Nat) (cmd : VCmd) : VSt :=
       match reg with
       | none => { s with buf := fixNav r.1, ring := if storable r.2 then setData max s.ring r.2 else s.ring }
       | some c =>
+        -- after proposed_fixes/C08-unknown-register-delete.diff (probed: `Gen.C09.unknownRegDeleteFixed`)
+        -- a delete with a register name outside `vi_register_names` does nothing
+        if Gen.C09.unknownRegDeleteFixed = true ∧ isRegName c = false then { s with buf := fixNav b2 }
+        else
         { s with buf := fixNav r.1
                  regs := if storable r.2 ∧ isRegName c then regSet s.regs c r.2 else s.regs }
 
